@@ -216,3 +216,46 @@ Lemma doc_ok_dirs_evaluable S D E fuel n : doc_ok S D E fuel n = true -> dirs_ev
 Proof.
   intro H. unfold doc_ok in H. apply andb_true_iff in H as [H _]. exact (conds_ok_dirs_evaluable S D E H).
 Qed.
+
+(** ** the switchable predicates: [true] is the full predicate, and dropping the directive conjunct weakens *)
+Lemma sel_conds_gen_true S E : forall s, sel_conds_gen S E true s = sel_conds_ok S E s.
+Proof.
+  intro s. induction s as [a n p d sub IH|n p d|tc p d sub IH] using selection_ind_dir;
+    cbn [sel_conds_gen sel_conds_ok]; try reflexivity;
+    (assert (Hl : forallb (sel_conds_gen S E true) sub = forallb (sel_conds_ok S E) sub);
+     [induction IH as [|x r Hx _ IHr]; [reflexivity|cbn [forallb]; rewrite Hx, IHr; reflexivity]|rewrite Hl; reflexivity]).
+Qed.
+
+Lemma forallb_ext_eq {A} (f g : A -> bool) l : (forall x, f x = g x) -> forallb f l = forallb g l.
+Proof. intro H. induction l as [|x r IH]; [reflexivity|]. cbn. rewrite H, IH. reflexivity. Qed.
+
+Lemma conds_gen_true S D E : conds_gen S D E true = conds_ok S D E.
+Proof.
+  unfold conds_gen, conds_ok. f_equal.
+  - apply forallb_ext_eq. apply sel_conds_gen_true.
+  - apply forallb_ext_eq. intro f. f_equal. apply forallb_ext_eq. apply sel_conds_gen_true.
+Qed.
+
+Lemma sel_conds_gen_weaken S E : forall s, sel_conds_gen S E true s = true -> sel_conds_gen S E false s = true.
+Proof.
+  intro s. induction s as [a n p d sub IH|n p d|tc p d sub IH] using selection_ind_dir;
+    cbn [sel_conds_gen]; intro H; apply andb_true_iff in H as [_ H]; cbn [andb]; try reflexivity.
+  - rewrite forallb_forall in H |- *. rewrite Forall_forall in IH. intros x Hx. exact (IH x Hx (H x Hx)).
+  - apply andb_true_iff in H as [Hc H]. rewrite Hc. cbn [andb].
+    rewrite forallb_forall in H |- *. rewrite Forall_forall in IH. intros x Hx. exact (IH x Hx (H x Hx)).
+Qed.
+
+Lemma conds_gen_weaken S D E : conds_gen S D E true = true -> conds_gen S D E false = true.
+Proof.
+  unfold conds_gen. intro H. apply andb_true_iff in H as [H1 H2]. apply andb_true_iff. split.
+  - rewrite forallb_forall in H1 |- *. intros x Hx. apply sel_conds_gen_weaken, H1, Hx.
+  - rewrite forallb_forall in H2 |- *. intros f Hf. specialize (H2 f Hf). apply andb_true_iff in H2 as [Hc H2].
+    rewrite Hc. cbn [andb]. rewrite forallb_forall in H2 |- *. intros x Hx. apply sel_conds_gen_weaken, H2, Hx.
+Qed.
+
+(** [doc_ok] implies [doc_ok_nodirs] *)
+Lemma doc_ok_nodirs_of_doc_ok S D E fuel n : doc_ok S D E fuel n = true -> doc_ok_nodirs S D E fuel n = true.
+Proof.
+  unfold doc_ok, doc_ok_nodirs. intro H. apply andb_true_iff in H as [H1 H2]. rewrite H2.
+  rewrite <- conds_gen_true in H1. rewrite (conds_gen_weaken S D E H1). reflexivity.
+Qed.
